@@ -504,9 +504,9 @@ theorem tampered_segment_rejected (hf : HashFn α H) [DecidableEq H] (inj : Inj 
 (`WellFormedRange`: the loop of `root` leaves exactly the entries the end of `root` consumes —
 a fact about `(id, size)` alone).  The general form behind `segment_sound` (full segments, any
 size) and `segment_sound_any_id` (every identifier that intersects an MMR of valid size, the final
-not full segment included: `segment_well_formed`).  The name is historical: nothing is partial
-here any more, the former gap `final_segment_range` is closed by `final_segment_well_formed`. -/
-theorem segment_sound_partial (hf : HashFn α H) [DecidableEq H] (inj : Inj hf) (s1 s2 : Segment α H)
+not full segment included: `segment_well_formed`).  (Formerly `segment_sound_partial`: nothing is partial here, the former gap
+`final_segment_range` is closed by `final_segment_well_formed`; this is the MORE general statement.) -/
+theorem segment_sound_well_formed_range (hf : HashFn α H) [DecidableEq H] (inj : Inj hf) (s1 s2 : Segment α H)
     (hid : s1.id = s2.id) (size : Nat) (bm : Option (Nat → Bool)) (wf : WellFormedRange s1.id size)
     (mmrRoot r1 : H) (hroot : s1.root hf size bm = .ok (some r1))
     (h1 : s1.validate hf size bm mmrRoot = .ok ()) (h2 : s2.validate hf size bm mmrRoot = .ok ()) :
@@ -838,9 +838,9 @@ theorem segment_complete_pruned (hf : HashFn α H) [DecidableEq H] (f : Nat → 
         (if left then hf.node hlp other r else hf.node hlp r other) hlp other left = .ok () :=
   complete_pruned_all hf f N b V pv id fit hg
 
-/-- the former partial version (extra hypothesis `hon`: the subtree root of a full segment is on
-file); kept under its name, now a corollary of `segment_complete_pruned` -/
-theorem segment_complete_pruned_partial (hf : HashFn α H) [DecidableEq H] (f : Nat → α) (N : Nat)
+/-- the special case in which the subtree root of a full segment is on file (hypothesis `_hon`, not
+needed any more): formerly `segment_complete_pruned_partial`, a corollary of `segment_complete_pruned` -/
+theorem segment_complete_pruned_root_on_file (hf : HashFn α H) [DecidableEq H] (f : Nat → α) (N : Nat)
     (b : Nat → Bool) (V : View α H) (pv : PrunedView hf f N b V) (id : Ident) (fit : FitId id N)
     (hg : 1 ≤ id.height) (_hon : FullId id (mmr N) → V.fromFile (lastOf id) ≠ none) :
     ∃ s r, fromPmmr hf V id true = .ok s ∧ rootOf hf f N = some r ∧ s.id = id ∧
@@ -1029,8 +1029,9 @@ vectors that were not built by `push`, e.g. what `PMMR::validate` accepted) -/
 if `hsAt` satisfies the MMR node law (leaf hash = hash of the leaf data, parent hash = hash of
 its two children — what `PMMR::validate` checks of the committed MMR) and the segment carries
 the data of every leaf of its range, then `Segment::root` returns the committed hash at the
-segment's last position.  (`segment_complete` discharges the two laws for the vector `push` builds.) -/
-theorem segment_complete_partial (hf : HashFn α H) (s : Segment α H) (size : Nat)
+segment's last position.  (`segment_complete` discharges the two laws for the vector `push` builds;
+formerly named `segment_complete_partial` — it is the general form, not a weaker one.) -/
+theorem segment_root_complete_node_law (hf : HashFn α H) (s : Segment α H) (size : Nat)
     (hsAt : Nat → H) (dataAt : Nat → α)
     (leafLaw : ∀ q, height q = 0 → hsAt q = hf.leaf q (dataAt q))
     (nodeLaw : ∀ q k, height q = k + 1 → hsAt q = hf.node q (hsAt (q - 2 ^ (k + 1))) (hsAt (q - 1)))
